@@ -17,7 +17,8 @@ by the encoder (`C15:unencodable-name`).
 Stage C: every `datagram_received` / TC-timer block of every run is replayed through the Lean host model
 (`Zc.Survive`, driver command `c15run`): where the datagram went (oversize / duplicate / invalid / response /
 no entries / responded:n / deferred / deferred-same) and which exception, if any, left the block must agree;
-`c15enc` compares the model's `encodable` predicate (decoder + Utf8 + encoder label limit) with what the
+`c15bm` compares the loop counters of `_read_bitmap` (while-iterations, bitmap bytes scanned; measured with a line tracer) with the
+model's (`C15_bitmap_work`: linear per call); `c15enc` compares the model's `encodable` predicate (decoder + Utf8 + encoder label limit) with what the
 library's `DNSOutgoing.write_name` does with the decoded names.
 """
 from __future__ import annotations
@@ -742,6 +743,60 @@ def impl_tags(obs):
     return out
 
 
+_bm = {}
+
+
+def bitmap_calls(data):
+    """every `_read_bitmap(end)` call the real decoder makes on `data`: [offset at entry, end, while-iterations, bytes scanned].
+    Counted with a line tracer restricted to that one code object; the two counted lines are located in the function's source, so
+    an edit that moves them does not break the measurement (if they cannot be found the measurement is skipped)."""
+    import inspect
+    import sys
+    from zeroconf._protocol import incoming as inc
+
+    if "code" not in _bm:
+        fn = inc.DNSIncoming._read_bitmap
+        _bm["code"] = fn.__code__
+        try:
+            src, first = inspect.getsourcelines(fn)
+            body = [i for i, l in enumerate(src) if l.strip().startswith("offset = self.offset")]
+            bit = [i for i, l in enumerate(src) if l.strip().startswith("if byte &")]
+            _bm["lines"] = (first + body[0], first + bit[0]) if len(body) == 1 and len(bit) == 1 else None
+        except Exception:
+            _bm["lines"] = None
+    if _bm["lines"] is None:
+        return None
+    l_iter, l_bit = _bm["lines"]
+    code = _bm["code"]
+    calls = []
+
+    def local(frame, event, arg):
+        if event == "line":
+            if frame.f_lineno == l_iter:
+                calls[-1][2] += 1
+            elif frame.f_lineno == l_bit:
+                calls[-1][3] += 1
+        return local
+
+    def tracer(frame, event, arg):
+        if event == "call" and frame.f_code is code:
+            calls.append([int(frame.f_locals["self"].offset), int(frame.f_locals["end"]), 0, 0])
+            return local
+        return None
+
+    old = sys.gettrace()
+    sys.settrace(tracer)
+    try:
+        try:
+            m = inc.DNSIncoming(data)
+            m.answers()
+        except Exception:
+            pass
+    finally:
+        sys.settrace(old)
+    return [[o, e, it, bits // 8] for o, e, it, bits in calls]
+
+
 def cut_after_raise(it, mt):
     """after the first block that raised (in either), only the exception class of that block is compared: the model
     does not describe the half-updated listener an exception leaves behind"""
@@ -842,11 +897,25 @@ def flush_model(res, ctx, acc, seen):
         if e is False:
             violate_limited(res, seen, "C15:unencodable-name", "the decoder returned a name that the encoder rejects with NamePartTooLongException",
                             {"hex": d, "len": len(d) // 2})
+    # `_read_bitmap` loop counters of the real decoder, for the datagrams that can reach it (an NSEC type field somewhere)
+    bm_calls = []
+    for d in datas:
+        raw = bytes.fromhex(d)
+        if b"\x00\x2f" in raw and len(raw) <= MAXLEN:
+            calls = bitmap_calls(raw)
+            if calls is None:
+                if not any("bitmap" in n for n in res.notes):
+                    res.notes.append("_read_bitmap loop lines not found in the source: bitmap work not measured")
+                break
+            for o, e, it, by in calls[:8]:
+                bm_calls.append((d, o, e, it, by))
+    res.count("bitmap-calls", len(bm_calls))
     if not ctx["driver_ok"]:
         del acc[:]
         return
+    bm_lines = ["c15bm %s %d %d" % (C.hx(bytes.fromhex(d)), o, e) for d, o, e, _it, _by in bm_calls]
     try:
-        out = C.run_driver(lines + enc_lines)
+        out = C.run_driver(lines + enc_lines + bm_lines)
     except C.DriverUnavailable as ex:
         res.notes.append("driver unavailable: %s" % ex)
         del acc[:]
@@ -857,7 +926,13 @@ def flush_model(res, ctx, acc, seen):
             k = next((i for i in range(min(len(it), len(mt))) if it[i] != mt[i]), min(len(it), len(mt)))
             res.disagree("c15run", {"case": fixed_case(case, obs["items"]), "block": k, "blockinfo": obs["blocks"][k] if k < len(obs["blocks"]) else None},
                          it[k] if k < len(it) else None, mt[k] if k < len(mt) else ml[:200])
-    for d, ml in zip(datas, out[len(acc):]):
+    for (d, o, e, it, by), ml in zip(bm_calls, out[len(acc) + len(datas):]):
+        res.evaluations += 1
+        want = "%d %d" % (it, by)
+        if ml != want:
+            res.disagree("c15bm", {"hex": d, "offset": o, "end": e}, want, ml[:60])
+        res.nontriv(("bm", min(it, 5), min(by, 5)))
+    for d, ml in zip(datas, out[len(acc):len(acc) + len(datas)]):
         e = impl_enc[d]
         want = {True: "1", False: "0", None: "none"}[e]
         got = ml.split(" ")[0] if ml else ""
